@@ -13,15 +13,19 @@
 (* increasing, and each side is decided by comparing two integer powers.   *)
 (*                                                                         *)
 (* Integer powers are evaluated in truncated big-float arithmetic (`Bf`,   *)
-(* 104+ significant bits, every product rounded DOWN, relative error per   *)
-(* product < 2^-104, so < 2^-93 after a 563rd power) and a comparison      *)
-(* only counts when it holds with a relative margin of 2^-80: the verdict  *)
+(* 79+ significant bits, every product rounded DOWN, relative error per    *)
+(* product < 2^-78, so < 2^-68 after a 563rd power) and a comparison       *)
+(* only counts when it holds with a relative margin of 2^-60: the verdict  *)
 (* is three-valued (holds / fails / undecided) and only a certain failure  *)
 (* rejects.  Undecided happens on exact equality (x = 0, x = 1) only.      *)
 (*                                                                         *)
 (* Published constants (reference data, never read from the code):         *)
 (*  sRGB      IEC 61966-2-1: 12.92, knee 0.04045 (encoded) / 0.0031308,     *)
-(*            1.055, 0.055, exponent 2.4 = 12/5                            *)
+(*            1.055, 0.055, exponent 2.4 = 12/5; and the variant in which  *)
+(*            1.055 is replaced by the value that makes the two segments   *)
+(*            meet exactly at 0.0031308 (1.0549999686...; the rounded      *)
+(*            constants of the standard leave a step of 1e-8 there) - what *)
+(*            palette's table generator uses                               *)
 (*  Rec.709 / Rec.2020 OETF  ITU-R BT.709-6, BT.2020-2: 4.5, exponent      *)
 (*            1/0.45 = 20/9, and either alpha = 1.099, beta = 0.018 or the *)
 (*            exact solution alpha = 1.09929682680944,                     *)
@@ -36,8 +40,9 @@ EXTENDS Fx
 
 -----------------------------------------------------------------------------
 (* truncated big floats: <<M, q>> denotes M * 8192^q, M a BigNat of at most PL limbs.  Values of at most
-   PL limbs are exact; longer products keep their top PL limbs (rounded down, relative error < 8192^-(PL-1)). *)
-PL == 9
+   PL limbs are exact; longer products keep their top PL limbs (rounded down, relative error < 8192^-(PL-1) = 2^-78).
+   (PL = 7 rather than more: one 7x7-limb product costs TLC about a millisecond, and a check needs up to 40.) *)
+PL == 7
 BfZero == <<<<>>, 0>>
 BfTrunc(M, q) == IF Len(M) <= PL THEN <<M, q>> ELSE <<SubSeq(M, Len(M) - PL + 1, Len(M)), q + (Len(M) - PL)>>
 BfNat(M) == BfTrunc(M, 0)
@@ -52,9 +57,10 @@ BfCmp(a, b) ==
        IN IF ta > tb THEN 1 ELSE IF ta < tb THEN -1
           ELSE LET q == IF a[2] <= b[2] THEN a[2] ELSE b[2]
                IN Cmp(ShiftLimbs(a[1], a[2] - q), ShiftLimbs(b[1], b[2] - q))
-(* a < b for certain, when a and b are lower bounds whose true values exceed them by at most 2^-93 relative:
-   an inexact value has PL limbs (>= 105 bits), so its Shr by 80 is > 2^-93 of it; an exact one needs no slack *)
-SureBits == 80
+(* a < b for certain, when a and b are lower bounds whose true values exceed them by at most 2^-68 relative
+   (a power a^n computed by BfPow is low by less than n * 2^-78, a product of two such by the sum; n <= 563 + 256):
+   an inexact value has PL limbs (>= 79 bits), so its Shr by 60 is > 2^-68 of it; an exact one needs no slack *)
+SureBits == 60
 SureLt(a, b) == BfCmp(<<Add(a[1], Shr(a[1], SureBits)), a[2]>>, b) < 0
 
 -----------------------------------------------------------------------------
@@ -85,9 +91,15 @@ LOCAL Ten15 == Mul(FromNat(100000000), FromNat(10000000))
 LOCAL RecAlphaN == Dec15(10992968, 2680944)          \* 1.09929682680944 * 10^14
 LOCAL RecAlphaM1N == Dec15(992968, 2680944)          \* 0.09929682680944 * 10^14
 LOCAL RecBetaN == Dec15(1805396, 8510807)            \* 0.018053968510807 * 10^15
+(* (12.92 * 0.0031308 - 1) / (0.0031308^(1/2.4) - 1) = 1.05499996864597051842... (60-digit decimal arithmetic) *)
+LOCAL Dec18(hi, lo9) == Add(Mul(FromNat(hi), FromNat(1000000000)), FromNat(lo9))   \* hi * 10^9 + lo9
+LOCAL Ten17 == Mul(FromNat(1000000000), FromNat(100000000))
+LOCAL SrgbAlphaCN == Dec18(105499996, 864597052)     \* 1.05499996864597052 * 10^17
+LOCAL SrgbAlphaCM1N == Dec18(5499996, 864597052)     \* 0.05499996864597052 * 10^17
 
 (* lin: has a linear toe; knee: the join, in ENCODED units; x = ((Y + a)/b)^(p/q) above it *)
 SrgbPar == [lin |-> TRUE, slope |-> Rat(323, 25), knee |-> Rat(809, 20000), a |-> Rat(11, 200), b |-> Rat(211, 200), p |-> 12, q |-> 5]
+SrgbParC == [lin |-> TRUE, slope |-> Rat(323, 25), knee |-> Rat(809, 20000), a |-> <<SrgbAlphaCM1N, Ten17>>, b |-> <<SrgbAlphaCN, Ten17>>, p |-> 12, q |-> 5]
 RecParA == [lin |-> TRUE, slope |-> Rat(9, 2), knee |-> Rat(81, 1000), a |-> Rat(99, 1000), b |-> Rat(1099, 1000), p |-> 20, q |-> 9]
 RecParB == [lin |-> TRUE, slope |-> Rat(9, 2), knee |-> <<MulSmall(RecBetaN, 9), MulSmall(Ten15, 2)>>,
             a |-> <<RecAlphaM1N, Ten14>>, b |-> <<RecAlphaN, Ten14>>, p |-> 20, q |-> 9]
@@ -96,21 +108,24 @@ P3Par == [lin |-> FALSE, slope |-> Rat(1, 1), knee |-> RatZero, a |-> RatZero, b
 ProPhotoPar == [lin |-> TRUE, slope |-> Rat(16, 1), knee |-> Rat(1, 32), a |-> RatZero, b |-> Rat(1, 1), p |-> 9, q |-> 5]
 
 Curves == {"srgb", "rec_oetf", "adobe", "p3", "prophoto", "linear"}
-(* the admissible published parameter sets of a curve (Rec: either constant set) *)
-Pars(curve) == CASE curve = "srgb" -> {SrgbPar}
+(* the admissible published parameter sets of a curve (sRGB: rounded or continuous; Rec: either constant set) *)
+Pars(curve) == CASE curve = "srgb" -> {SrgbPar, SrgbParC}
                  [] curve = "rec_oetf" -> {RecParA, RecParB}
                  [] curve = "adobe" -> {AdobePar}
                  [] curve = "p3" -> {P3Par}
                  [] curve = "prophoto" -> {ProPhotoPar}
                  [] OTHER -> {}
 
-(* sign of g(Y) - x on one branch: 1 / -1 for certain, 0 undecided (or equal) *)
+(* sign of g(Y) - x on one branch: 1 / -1 for certain, 0 undecided (or equal).  Y a rational, x a Dy >= 0
+   (its magnitude <<M, q>> is a Bf as it stands).
+   (The intermediate values are bound by set comprehension over singletons, not by LET: TLC re-evaluates or
+   re-validates LET-bound and argument expressions at every use, which multiplies the cost of the powers.) *)
+SureCmp(L, R) == IF SureLt(R, L) THEN 1 ELSE IF SureLt(L, R) THEN -1 ELSE 0
 GCmp(par, br, Y, x) ==
-  IF br = "lin" THEN RatCmp(RatDiv(Y, par.slope), x)                         \* exact
-  ELSE LET U == RatDiv(RatAdd(Y, par.a), par.b)
-           L == BfMul(BfPow(BfNat(U[1]), par.p), BfPow(BfNat(x[2]), par.q))  \* U^p = x^q cross-multiplied
-           R == BfMul(BfPow(BfNat(x[1]), par.q), BfPow(BfNat(U[2]), par.p))
-       IN IF SureLt(R, L) THEN 1 ELSE IF SureLt(L, R) THEN -1 ELSE 0
+  IF br = "lin" THEN RatCmp(RatDiv(Y, par.slope), RatOfDy(x))                \* exact
+  ELSE CHOOSE r \in {SureCmp(lr[1], lr[2]) :                                  \* U^p against x^q, cross-multiplied
+                     lr \in {<<BfPow(BfNat(U[1]), par.p), BfMul(BfPow(BfTrunc(x[3], x[2]), par.q), BfPow(BfNat(U[2]), par.p))>> :
+                             U \in {RatDiv(RatAdd(Y, par.a), par.b)}}} : TRUE
 
 (* TOLERANCE KneeBandBits: within kn * (1 +- 2^-12) of the join EITHER branch is accepted.  The two published knees of
    sRGB (0.04045 and 12.92 * 0.0031308) differ by 1.6e-6 relative and a constant rounded to f32 by 6e-8; the branches
@@ -131,7 +146,7 @@ XAbove(par, Y, x) == CmpSet(par, Y, x) = {-1}
 (* g(Ylo) <= x <= g(Yhi) is not refuted *)
 Between(par, x, Ylo, Yhi) == ~XBelow(par, Ylo, x) /\ ~XAbove(par, Yhi, x)
 OnCurve(curve, x, Ylo, Yhi) ==
-  IF curve = "linear" THEN RatCmp(Ylo, x) <= 0 /\ RatCmp(x, Yhi) <= 0
+  IF curve = "linear" THEN RatCmp(Ylo, RatOfDy(x)) <= 0 /\ RatCmp(RatOfDy(x), Yhi) <= 0
   ELSE \E par \in Pars(curve) : Between(par, x, Ylo, Yhi)
 
 -----------------------------------------------------------------------------
@@ -139,18 +154,22 @@ OnCurve(curve, x, Ylo, Yhi) ==
    g((k - 0.6)/max) < x < g((k + 0.6)/max); x the exact value of the f32 (a Dy >= 0) *)
 Lo06(max, k) == IF k = 0 THEN RatZero ELSE Rat(10 * k - 6, 10 * max)
 Hi06(max, k) == Rat(10 * k + 6, 10 * max)
-Within06(curve, max, k, x) == OnCurve(curve, RatOfDy(x), Lo06(max, k), Hi06(max, k))
+Within06(curve, max, k, x) == OnCurve(curve, x, Lo06(max, k), Hi06(max, k))
 (* the same with 0.5: exact rounding of the curve *)
 Within05(curve, max, k, x) ==
-  OnCurve(curve, RatOfDy(x), IF k = 0 THEN RatZero ELSE Rat(2 * k - 1, 2 * max), Rat(2 * k + 1, 2 * max))
+  OnCurve(curve, x, IF k = 0 THEN RatZero ELSE Rat(2 * k - 1, 2 * max), Rat(2 * k + 1, 2 * max))
 
 (* A whole run [xf, xl] of inputs with code k: f is increasing, so the lower bound needs checking at the first input
    only and the upper bound at the last.  One pair of outcome sets per admissible parameter set; code 0 has no lower
    bound to check (f >= 0). *)
 RunVerdicts(curve, max, k, xf, xl) ==
-  {<<IF k = 0 THEN {} ELSE CmpSet(par, Lo06(max, k), RatOfDy(xf)), CmpSet(par, Hi06(max, k), RatOfDy(xl))>> : par \in Pars(curve)}
+  {<<IF k = 0 THEN {} ELSE CmpSet(par, Lo06(max, k), xf), CmpSet(par, Hi06(max, k), xl)>> : par \in Pars(curve)}
 RunWithin06(vs) == \E v \in vs : v[1] # {1} /\ v[2] # {-1}
 RunUndecided(vs) == \E v \in vs : 0 \in v[1] \/ 0 \in v[2]
+(* The boundary between the runs of k - 1 and k (k >= 1): xb the last input of k - 1, xa the first input of k:
+   upper bound of k - 1 at xb, lower bound of k at xa.  All boundaries plus the two ends cover every run. *)
+BoundaryVerdicts(curve, max, k, xb, xa) ==
+  {<<CmpSet(par, Lo06(max, k), xa), CmpSet(par, Hi06(max, k - 1), xb)>> : par \in Pars(curve)}
 
 -----------------------------------------------------------------------------
 (* Floating point results: tolerances are expressed on the ENCODED value Y: tol(Y) = Y * 2^-RelBits + 2^-AbsBits.
@@ -163,15 +182,20 @@ RunUndecided(vs) == \E v \in vs : 0 \in v[1] \/ 0 \in v[2]
    largest 3.0 * 2^-24 for f32, 3.4 * 2^-53 for f64); 2^-(Prec - 7) = 128 * 2^-Prec leaves more than the required 8x. *)
 Prec(t) == IF t = "f32" THEN 24 ELSE 53
 RelBits(t) == Prec(t) - 7
-AbsBits(t) == IF t = "f32" THEN 60 ELSE 120       \* results in the subnormal range are not asserted tighter than this
-YTol(t, Y) == RatAdd(RatShr(Y, RelBits(t)), RatPow2Neg(AbsBits(t)))
+AbsBits(t) == IF t = "f32" THEN 40 ELSE 70        \* results below 2^-23 / 2^-24 are not asserted tighter than this
+(* the bracket <<Ylo, Yhi>> = Y -+ (Y * 2^-RelBits + 2^-AbsBits) of Y = n/d, built with shifts only and on one
+   denominator (a sum of rationals would multiply the denominators, and TLC pays for every limb) *)
+Bracket(t, Y) ==
+  LET ab == AbsBits(t)  rb == RelBits(t)
+      n2 == Shl(Y[1], ab)  d2 == Shl(Y[2], ab)
+      tl == Add(Shl(Y[1], ab - rb), Y[2])
+  IN <<<<IF Le(n2, tl) THEN Zero ELSE Sub(n2, tl), d2>>, <<Add(n2, tl), d2>>>>
+OnCurveTol(curve, t, x, Y) == \A b \in {Bracket(t, Y)} : OnCurve(curve, x, b[1], b[2])
 
 (* (x, y) is a point of the curve: x linear, y encoded, both exact dyadics >= 0 *)
-CurveOK(curve, t, x, y) ==
-  LET Y == RatOfDy(y)  tol == YTol(t, Y) IN OnCurve(curve, RatOfDy(x), RatSub0(Y, tol), RatAdd(Y, tol))
+CurveOK(curve, t, x, y) == OnCurveTol(curve, t, x, RatOfDy(y))
 (* the decoder's value for code k *)
-DecodeOK(curve, t, max, k, x) ==
-  LET Y == Rat(k, max)  tol == YTol(t, Y) IN OnCurve(curve, RatOfDy(x), RatSub0(Y, tol), RatAdd(Y, tol))
+DecodeOK(curve, t, max, k, x) == OnCurveTol(curve, t, x, Rat(k, max))
 
 (* the joins, in the units of the argument: dir "enc" takes linear x (knee / slope), "dec" takes encoded y *)
 KneeIn(par, dir) == IF dir = "dec" THEN par.knee ELSE RatDiv(par.knee, par.slope)
